@@ -54,6 +54,14 @@ def entries : List Entry := [
           then pure ("ok " ++ natList l) else pure ("ok " ++ natList want)
         | none => pure ("ok " ++ natList want)
       | _ => none },
+  -- spec: undeclared bits have no say — the rendering equals that of the word with them cleared
+  -- (arguments: family, word, mask of all declared constants, rendering of the word, rendering of word AND mask)
+  { kind := "S", op := "c19.strmask", run := fun
+      | [f, w, mask, _, masked] => do
+        let f ← family? f; let _ ← wordArg f.bits w; let mask ← wordArg f.bits mask
+        if mask != f.consts.foldl (fun acc c => acc ||| c.value) 0 then pure "bad-format"
+        else pure ("ok " ++ masked ++ " " ++ masked)
+      | _ => none },
   -- spec: normalised names of the declared non-reserved bits that are set, sorted
   { kind := "S", op := "c19.set", run := fun
       | [f, w] => do
